@@ -42,6 +42,10 @@ type Outcome struct {
 	Sample     any            `json:"sample,omitempty"`
 	RealMS     float64        `json:"real_ms"`
 	Deadlock   bool           `json:"deadlock,omitempty"`
+	// Unstable: the run reached a point where the Go runtime itself chooses at
+	// random (a select with several ready cases after a cancellation); its event
+	// log is not expected to repeat, only its verdict is.
+	Unstable bool `json:"unstable,omitempty"`
 }
 
 func (o *Outcome) Violate(prop, oracle, key, format string, a ...any) {
@@ -134,6 +138,7 @@ func RunPlan(t *testing.T, p Prop, plan any) (out *Outcome) {
 	defer restore()
 	t0 := time.Now()
 	races0 := raceErrors()
+	completed := false
 	body := func() {
 		defer func() {
 			if r := recover(); r != nil {
@@ -150,6 +155,7 @@ func RunPlan(t *testing.T, p Prop, plan any) (out *Outcome) {
 			env.T = t
 			env.Start = time.Now()
 			p.Exec(env, plan)
+			completed = true
 			out.SimTimeS = time.Since(env.Start).Seconds()
 		})
 	}
@@ -168,6 +174,14 @@ func RunPlan(t *testing.T, p Prop, plan any) (out *Outcome) {
 		body()
 	}
 	out.RealMS = float64(time.Since(t0).Microseconds()) / 1000
+	if out.Deadlock && !completed && len(out.Violations) == 0 {
+		// every goroutine of the bubble was blocked for good before the
+		// property's own verdict was reached
+		if d, ok := p.(interface{ DeadlockIsViolation() bool }); ok && d.DeadlockIsViolation() {
+			out.Class = "DEADLOCK"
+			out.Violate(p.ID(), "deadlock", "all-goroutines-blocked", "all goroutines of the simulated system are blocked for good")
+		}
+	}
 	if n := raceErrors() - races0; n > 0 {
 		// the reports themselves are in the GORACE log of this process; the
 		// driver classifies them (library access pair or harness defect)
@@ -188,6 +202,9 @@ func RunPlan(t *testing.T, p Prop, plan any) (out *Outcome) {
 	}
 	h.Write([]byte(out.Class))
 	out.LogHash = hex.EncodeToString(h.Sum(nil)[:8])
+	if out.Unstable {
+		out.LogHash = "unstable"
+	}
 	return out
 }
 
